@@ -174,4 +174,285 @@ theorem word_scores {R : Nat} (hR : (R : Int) ≤ I32_MAX) {off sc : Rat} (hs : 
             calc t + (discCell off sc (some x)).toNat ≤ rest.length * R + R := by omega
               _ = (rest.length + 1) * R := by ring
 
+/-! ### unpacking `build` -/
+
+theorem mem_finiteCells {m : List (List (Option Rat))} {x : Rat} :
+    x ∈ finiteCells m ↔ ∃ row ∈ m, some x ∈ row := by
+  unfold finiteCells
+  simp only [List.mem_filterMap, List.mem_flatten, id]
+  constructor
+  · rintro ⟨c, ⟨row, hrow, hc⟩, rfl⟩; exact ⟨row, hrow, hc⟩
+  · rintro ⟨row, hrow, hc⟩; exact ⟨some x, ⟨row, hrow, hc⟩, rfl⟩
+
+theorem ratTrunc_intCast (n : Int) : ratTrunc (n : Rat) = n := by
+  unfold ratTrunc
+  by_cases h : (0 : Rat) ≤ (n : Rat)
+  · rw [if_pos h]; exact Rat.floor_intCast n
+  · rw [if_neg h]
+    have : (-(n : Rat)) = ((-n : Int) : Rat) := by push_cast; ring
+    rw [this, Rat.floor_intCast]; omega
+
+/-- the hypotheses of the property, for the exact model -/
+structure Hyp (R : Nat) (syms : List Nat) (bg : List Rat) (m : List (List (Option Rat))) : Prop where
+  /-- background frequencies of the symbols are non-negative … -/
+  bg_nonneg : ∀ a ∈ syms, 0 ≤ bg.getD a 0
+  /-- … and sum to at most 1 (exactly 1 for a probability distribution; a wildcard with mass and a
+      −∞ score is covered) -/
+  bg_sum : (syms.map (fun a => bg.getD a 0)).sum ≤ 1
+  /-- every row has a column for every symbol -/
+  cols : ∀ row ∈ m, ∀ a ∈ syms, a < row.length
+  /-- the table length fits the `i32` index type -/
+  i32_size : ((m.length * R + 1 : Nat) : Int) ≤ I32_MAX
+  /-- the finite entries fit the `i32` offset -/
+  i32_cells : ∀ x ∈ finiteCells m, (I32_MIN : Rat) + 1 ≤ x ∧ x ≤ (I32_MAX : Rat)
+
+/-- what `build` returns, field by field -/
+theorem build_some {R : Nat} {syms : List Nat} {bg : List Rat} {m : List (List (Option Rat))}
+    {d : Dist Rat} (h : build R syms bg m = some d) :
+    ∃ small0 large, minBy (finiteCells m) = some small0 ∧ maxBy (finiteCells m) = some large ∧
+      d.scale = scaleQ R small0 large ∧
+      d.offset = clampI32 (ratTrunc (offQ small0 large)) ∧
+      d.rows = m.length ∧
+      d.data = discretize (offQ small0 large) (scaleQ R small0 large) m ∧
+      d.sf = (sfLoop ((pdfOf R syms bg d.data).size - 1) ⟨clipLast (pdfOf R syms bg d.data), 0, 0⟩).sf ∧
+      d.minScore = (sfLoop ((pdfOf R syms bg d.data).size - 1) ⟨clipLast (pdfOf R syms bg d.data), 0, 0⟩).minScore ∧
+      d.maxScore = (sfLoop ((pdfOf R syms bg d.data).size - 1) ⟨clipLast (pdfOf R syms bg d.data), 0, 0⟩).maxScore := by
+  unfold build at h
+  cases hmin : minBy (finiteCells m) with
+  | none => rw [hmin] at h; simp at h
+  | some small0 =>
+    cases hmax : maxBy (finiteCells m) with
+    | none => rw [hmin, hmax] at h; simp at h
+    | some large =>
+      rw [hmin, hmax] at h
+      simp only [Option.some.injEq] at h
+      subst h
+      exact ⟨small0, large, rfl, rfl, rfl, rfl, rfl, rfl, rfl, rfl, rfl⟩
+
+/-! ### tails of the integer score -/
+
+theorem prob_dGe_succ (syms : List Nat) (bg : List Rat) (M : Nat) (data : List (List Int)) (j : Nat) :
+    prob syms bg M (dGe data (j : Int)) =
+      prob syms bg M (dEq data j) + prob syms bg M (dGe data ((j + 1 : Nat) : Int)) := by
+  unfold prob
+  rw [← List.sum_map_add]
+  apply sum_map_congr
+  intro w _
+  unfold dGe dEq
+  cases dscore data w with
+  | none => simp
+  | some t =>
+    by_cases h1 : t = j
+    · subst h1; simp
+    · by_cases h2 : j + 1 ≤ t
+      · have : (j : Int) ≤ t := by omega
+        simp [h1, this]
+        intro h; omega
+      · have : ¬ (j : Int) ≤ t := by omega
+        simp [h1, this]
+        intro h; omega
+
+/-- events on words that agree on every word of the space have the same probability -/
+theorem prob_congr (syms : List Nat) (bg : List Rat) (M : Nat) (e1 e2 : List Nat → Bool)
+    (h : ∀ w ∈ words syms M, e1 w = e2 w) : prob syms bg M e1 = prob syms bg M e2 := by
+  unfold prob
+  apply sum_map_congr
+  intro w hw
+  rw [h w hw]
+
+theorem prob_false (syms : List Nat) (bg : List Rat) (M : Nat) (e : List Nat → Bool)
+    (h : ∀ w ∈ words syms M, e w = false) : prob syms bg M e = 0 := by
+  unfold prob
+  apply List.sum_eq_zero
+  intro x hx
+  obtain ⟨w, hw, rfl⟩ := List.mem_map.mp hx
+  rw [h w hw]; simp
+
+theorem dGe_antitone (data : List (List Int)) {k1 k2 : Int} (h : k1 ≤ k2) (w : List Nat) :
+    dGe data k2 w = true → dGe data k1 w = true := by
+  unfold dGe
+  cases dscore data w with
+  | none => simp
+  | some t => simp; omega
+
+/-- Facts about a built distribution that the property theorems use.  `WordBound` says that the
+    integer score of every word of the probability space lies in `0 ..= M·R`. -/
+def WordBound (R : Nat) (syms : List Nat) (M : Nat) (data : List (List Int)) : Prop :=
+  ∀ w ∈ words syms M, ∀ t, dscore data w = some t → t ≤ M * R
+
+theorem prob_dGe_of_nonpos {syms : List Nat} {bg : List Rat} {M : Nat} {data : List (List Int)}
+    {k : Int} (hk : k ≤ 0) : prob syms bg M (dGe data k) = prob syms bg M (dGe data 0) := by
+  apply prob_congr
+  intro w _
+  unfold dGe
+  cases dscore data w with
+  | none => rfl
+  | some t =>
+    have h1 : k ≤ (t : Int) := by omega
+    have h2 : (0 : Int) ≤ (t : Int) := by omega
+    simp [h1, h2]
+
+theorem prob_dGe_of_large {R : Nat} {syms : List Nat} {bg : List Rat} {M : Nat} {data : List (List Int)}
+    (hwb : WordBound R syms M data) {k : Int} (hk : ((M * R : Nat) : Int) < k) :
+    prob syms bg M (dGe data k) = 0 := by
+  apply prob_false
+  intro w hw
+  unfold dGe
+  cases hd : dscore data w with
+  | none => rfl
+  | some t =>
+    have := hwb w hw t hd
+    have : ¬ k ≤ (t : Int) := by omega
+    simp [this]
+
+/-- What the property theorems need to know about a built distribution. -/
+structure Facts (R : Nat) (syms : List Nat) (bg : List Rat) (m : List (List (Option Rat)))
+    (d : Dist Rat) : Prop where
+  rows : d.rows = m.length
+  rows_pos : 0 < m.length
+  R_i32 : (R : Int) ≤ I32_MAX
+  data : d.data = discretize (d.offset : Rat) d.scale m
+  cells : CellsOK R (d.offset : Rat) d.scale m
+  wordBound : WordBound R syms m.length d.data
+  size : d.sf.size = m.length * R + 1
+  pdf : ∀ j, vget (pdfOf R syms bg d.data) j = prob syms bg m.length (dEq d.data j)
+  sf : ∀ j, j < d.sf.size → vget d.sf j = prob syms bg m.length (dGe d.data (j : Int))
+  min_nonneg : 0 ≤ d.minScore
+  min_lt : d.minScore + 1 < d.sf.size
+  min_mass : ∀ j : Nat, (j : Int) < d.minScore → prob syms bg m.length (dEq d.data j) = 0
+  max_nonneg : 0 ≤ d.maxScore
+  max_lt : d.maxScore < d.sf.size
+
+theorem build_facts {R : Nat} {syms : List Nat} {bg : List Rat} {m : List (List (Option Rat))}
+    {d : Dist Rat} (hyp : Hyp R syms bg m) (h : build R syms bg m = some d) (hs : 0 < d.scale) :
+    Facts R syms bg m d := by
+  obtain ⟨small0, large, hmin, hmax, hscale, hoffset, hrows, hdata, hsf, hms, hmx⟩ := build_some h
+  obtain ⟨hsmem, hsle⟩ := minBy_spec hmin
+  obtain ⟨hlmem, hlge⟩ := maxBy_spec hmax
+  -- the matrix has a row
+  have hpos : 0 < m.length := by
+    obtain ⟨row, hrow, _⟩ := mem_finiteCells.mp hsmem
+    exact List.length_pos_of_mem hrow
+  have hRi : (R : Int) ≤ I32_MAX := by
+    have h1 : R ≤ m.length * R := Nat.le_mul_of_pos_left R hpos
+    have h2 := hyp.i32_size
+    have : ((R : Nat) : Int) ≤ ((m.length * R + 1 : Nat) : Int) := by exact_mod_cast (by omega : R ≤ m.length * R + 1)
+    omega
+  -- the offset fits an i32
+  have hoffQ := offQ_eq small0 large
+  have hadj_lo : small0 - 1 ≤ adjustSmall small0 large := by
+    unfold adjustSmall
+    rw [eqb_rat]
+    by_cases he : small0 = large
+    · simp only [he, decide_true, if_true, one_rat]; exact le_refl _
+    · simp only [he, decide_false, Bool.false_eq_true, if_false]; linarith
+  have hfl_lo : I32_MIN ≤ (adjustSmall small0 large).floor := by
+    apply Rat.le_floor_iff.mpr
+    have := (hyp.i32_cells small0 hsmem).1
+    linarith
+  have hfl_hi : (adjustSmall small0 large).floor ≤ I32_MAX := by
+    have h1 := floor_le' (adjustSmall small0 large)
+    have h2 := adjustSmall_le small0 large
+    have h3 := (hyp.i32_cells small0 hsmem).2
+    have : (((adjustSmall small0 large).floor : Int) : Rat) ≤ ((I32_MAX : Int) : Rat) := by linarith
+    exact_mod_cast this
+  have hoff : d.offset = (adjustSmall small0 large).floor := by
+    rw [hoffset, hoffQ, ratTrunc_intCast]
+    exact clampI32_of_mem hfl_lo hfl_hi
+  have hoffR : (d.offset : Rat) = offQ small0 large := by rw [hoff, hoffQ]
+  have hsQ : 0 < scaleQ R small0 large := by rw [← hscale]; exact hs
+  have hdata' : d.data = discretize (d.offset : Rat) d.scale m := by rw [hdata, hoffR, hscale]
+  have hcells : CellsOK R (d.offset : Rat) d.scale m := by
+    intro row hrow x hx
+    have hxmem : x ∈ finiteCells m := mem_finiteCells.mpr ⟨row, hrow, hx⟩
+    rw [hoffR, hscale]
+    exact scaled_cell_bounds hsQ (hsle x hxmem) (hlge x hxmem)
+  -- integer rows are in range
+  have hrowsOK : ∀ row ∈ d.data, RowOK R syms row := by
+    intro row' hrow' a ha
+    rw [hdata'] at hrow'
+    obtain ⟨row, hrow, rfl⟩ := List.mem_map.mp hrow'
+    have halt : a < row.length := hyp.cols row hrow a ha
+    obtain ⟨c, hc⟩ : ∃ c, row[a]? = some c := ⟨row[a], List.getElem?_eq_getElem halt⟩
+    have h2 : (row.map (discCell (d.offset : Rat) d.scale)).getD a 0 = discCell (d.offset : Rat) d.scale c := by
+      rw [List.getD_eq_getElem?_getD, List.getElem?_map, hc]; rfl
+    rw [h2]
+    cases c with
+    | none => left; exact discCell_none hs
+    | some x =>
+      right
+      obtain ⟨hb0, hb1⟩ := hcells row hrow x (List.mem_of_getElem? hc)
+      obtain ⟨hc0, hc1, _, _, _⟩ := discCell_some hRi hb0 hb1
+      exact ⟨hc0, hc1⟩
+  have hlen : d.data.length = m.length := by rw [hdata']; simp
+  obtain ⟨hpsz, hpval, hpsupp⟩ := pdfOf_spec R syms bg d.data hrowsOK
+  rw [hlen] at hpsz hpsupp
+  have hpdf : ∀ j, vget (pdfOf R syms bg d.data) j = prob syms bg m.length (dEq d.data j) := by
+    intro j; rw [hpval j, specQ_delta0, hlen]
+  -- integer scores of words
+  have hwb : WordBound R syms m.length d.data := by
+    intro w hw t ht
+    obtain ⟨hwl, hwm⟩ := mem_words hw
+    rcases word_scores hRi hs m w hcells hwl (fun row hrow a ha => hyp.cols row hrow a (hwm a ha)) with
+      ⟨_, hd⟩ | ⟨v, t', _, hd, _, _, hb⟩
+    · rw [← hdata'] at hd; rw [hd] at ht; cases ht
+    · rw [← hdata'] at hd; rw [hd] at ht; cases ht; exact hb
+  -- the sf loop
+  let p : Nat → Rat := fun j => prob syms bg m.length (dEq d.data j)
+  let G : Nat → Rat := fun j => prob syms bg m.length (dGe d.data (j : Int))
+  have hp : ∀ j, 0 ≤ p j := fun j => prob_nonneg hyp.bg_nonneg _ _
+  have hG : ∀ j, G j = p j + G (j + 1) := fun j => prob_dGe_succ syms bg m.length d.data j
+  have hG1 : ∀ j, G j ≤ 1 := fun j => prob_le_one hyp.bg_nonneg hyp.bg_sum _ _
+  have hGtop : G (m.length * R + 1) = 0 := prob_dGe_of_large hwb (by push_cast; omega)
+  have hplast : p (m.length * R) ≤ 1 := by
+    have := hG (m.length * R); rw [hGtop] at this; linarith [hG1 (m.length * R)]
+  have hclip : ∀ j, vget (clipLast (pdfOf R syms bg d.data)) j = p j := by
+    intro j
+    unfold clipLast
+    rw [vget_vset _ _ _ _ (by omega), hpsz]
+    by_cases hj : j = m.length * R + 1 - 1
+    · rw [if_pos hj, hpdf]
+      have : m.length * R + 1 - 1 = m.length * R := by omega
+      rw [hj, this]
+      exact min1_of_le_one hplast
+    · rw [if_neg hj]; exact hpdf j
+  have hspec := sfLoop_spec p G (m.length * R + 1) hp hG hG1 (m.length * R)
+    ⟨clipLast (pdfOf R syms bg d.data), 0, 0⟩
+    (by show (clipLast _).size = _; unfold clipLast; rw [size_vset, hpsz])
+    (le_refl _)
+    (by
+      intro j hj1 hj2
+      have : j = m.length * R := by omega
+      subst this
+      show vget (clipLast _) _ = _
+      rw [hclip, hG (m.length * R), hGtop, add_zero])
+    (fun j _ => hclip j)
+    ⟨le_refl _, by
+      have : 0 < m.length * R := by
+        by_contra hcon
+        have hz : m.length * R = 0 := by omega
+        -- R = 0 contradicts scale > 0
+        have hR0 : R = 0 := by
+          rcases Nat.mul_eq_zero.mp hz with h0 | h0
+          · omega
+          · exact h0
+        rw [hscale, scaleQ_eq, hR0] at hs
+        have hfl0 : (0 : Rat).floor = 0 := Rat.floor_intCast 0
+        simp [hfl0] at hs
+      show (0 : Int) + 1 < ((m.length * R + 1 : Nat) : Int)
+      omega, fun j _ hj => by simp at hj; omega⟩
+    ⟨le_refl _, by show (0 : Int) < ((m.length * R + 1 : Nat) : Int); omega⟩
+  have hsz1 : (pdfOf R syms bg d.data).size - 1 = m.length * R := by rw [hpsz]; omega
+  rw [hsz1] at hsf hms hmx
+  obtain ⟨hssz, hsval, ⟨hm0, hm1, hm2⟩, hx0, hx1⟩ := hspec
+  rw [← hsf] at hssz hsval
+  rw [← hms] at hm0 hm1 hm2
+  rw [← hmx] at hx0 hx1
+  exact {
+    rows := hrows, rows_pos := hpos, R_i32 := hRi, data := hdata', cells := hcells, wordBound := hwb,
+    size := hssz, pdf := hpdf,
+    sf := fun j hj => hsval j (by rw [hssz] at hj; exact hj),
+    min_nonneg := hm0, min_lt := by rw [hssz]; exact hm1, min_mass := hm2,
+    max_nonneg := hx0, max_lt := by rw [hssz]; exact hx1 }
+
 end LMV.Dist
